@@ -28,6 +28,7 @@ from torch.autograd.functional import jacobian  # noqa: E402
 
 import c06_gen as G  # noqa: E402
 import c07_torch as TT  # noqa: E402
+import c07_extra as X  # noqa: E402
 
 torch.set_num_threads(2)
 DT = torch.float64
@@ -662,6 +663,17 @@ def run(ck: Check):
                 check_lograte(ck, drv, t, dates, rows, batched, fails)
                 ck.case(key=("lograte", G.paren(t), batched), nontrivial=n >= 3, bucket=f"LogDifferenceRate/n={n if n <= 6 else '7+'}")
                 flush({"type": "lograte", "tree": G.paren(t), "dates": dates, "x": rows, "batched": batched}, (n, len(rows)))
+        # ---- how a transform / TransformedParameter is reached (fourth-wave checklist)
+        def record(sig, what, rep, size):
+            if sig not in found or size < found[sig][0]:
+                found[sig] = (size, what, rep)
+
+        X.section_routes(ck, rng, record)
+        X.section_cli_unconstrained(ck, rng, record)
+        X.section_dtypes(ck, rng, record)
+        X.section_instances(ck, rng, record)
+        X.section_batches_special(ck, rng, record, lambda name, rows, b, fl: run_point(ck, drv, name, rows, b, fl))
+        X.section_failures(ck, rng, record)
         # ---- TransformedParameter(): current value after updates; Lean cached-value machine
         names = list(V) + list(E) + list(TT.tp_registry(rng))
         for i in range(200 if ck.thorough() else 72):
@@ -709,6 +721,10 @@ def replay(path: str) -> int:
         check_heights(_Ck(), None, G.parse_paren(obj["tree"]), obj["dates"], obj["kind"], obj.get("k"), obj["x"],
                       obj["batched"], fails)
         print(f"{obj['kind']} node-height transform on {obj['tree']} dates {obj['dates']} at {obj['x']}")
+    elif typ == "tp-route":
+        rc = X.replay_tp_route(obj)
+        print("VIOLATES" if rc else "property holds on this input")
+        return rc
     elif typ == "live-tree":
         import contextlib
 
